@@ -196,4 +196,39 @@ theorem linesOf_append_terminated (a b : List Char) :
       | nil => exact absurd h (linesOf_terminated_ne_nil a)
       | cons l ls => simp [consLine]
 
+/-- terminating an unterminated, non-empty text does not change its lines -/
+theorem linesOf_terminate (a : List Char) (hne : a ≠ []) (h : a.getLast? ≠ some '\n') :
+    linesOf (a ++ ['\n']) = linesOf a := by
+  induction a with
+  | nil => exact absurd rfl hne
+  | cons c r ih =>
+    cases r with
+    | nil =>
+      have hc : c ≠ '\n' := by intro e; apply h; simp [e]
+      simp [linesOf, hc, consLine]
+    | cons d r' =>
+      have h' : (d :: r').getLast? ≠ some '\n' := by simpa [List.getLast?_cons_cons] using h
+      have ih' := ih (by simp) h'
+      by_cases hc : c = '\n'
+      · simp only [List.cons_append, linesOf, hc, if_true]
+        exact congrArg _ ih'
+      · simp only [List.cons_append, linesOf, hc, if_false]
+        exact congrArg _ ih'
+
+theorem endsWith_append_nl (x : String) : endsWith '\n' (x ++ "\n") = true := by
+  have : ("\n" : String).toList = ['\n'] := rfl
+  simp [endsWith, String.toList_append, this]
+
+theorem endsWith_iff (c : Char) (s : String) : endsWith c s = true ↔ ∃ p : String, s = p ++ String.singleton c := by
+  unfold endsWith
+  constructor
+  · intro h
+    have h' : s.toList.getLast? = some c := by simpa using h
+    obtain ⟨l, hl⟩ := List.getLast?_eq_some_iff.mp h'
+    refine ⟨String.ofList l, ?_⟩
+    apply String.toList_inj.mp
+    simp [String.toList_append, hl]
+  · rintro ⟨p, rfl⟩
+    simp [String.toList_append]
+
 end BlueskyVerif.JsonWriter
